@@ -141,6 +141,21 @@ class App:
                 r = router[{c['rule']}]
                 if r is not None:
                     r.remove_method(c['methods'])
+            elif op == 'remove_via':
+                # RouteMethod.remove() on the object obtained from route[verb] / from resolve()
+                if c.get('path') is not None:
+                    ep, _err = router.resolve(c['path'], [c['verb']])
+                    if ep:
+                        ep[0].remove()
+                else:
+                    r = router[{c['rule']}]
+                    if r is not None:
+                        try:
+                            rm = r[c['verb']]
+                        except RouteMethodError:
+                            rm = None
+                        if rm is not None:
+                            rm.remove()
             elif op == 'dispatch':
                 return self.dispatch(c['path'], c['verb'])
             elif op == 'by_name':
@@ -272,6 +287,10 @@ def encode(case):
             p, _, fl = ctx.parse(c['rule'])
             ms = c['methods'] if isinstance(c['methods'], list) else [c['methods']]
             out += [5] + enc_str(cps(p)) + enc_list(fl, enc_ofid) + enc_list(ms, lambda m: enc_str(cps(m)))
+        elif op == 'remove_via':
+            # in the model: remove_method([verb]) on the route of that rule (a no-op when the verb is not registered)
+            p, _, fl = ctx.parse(c['rule'])
+            out += [5] + enc_str(cps(p)) + enc_list(fl, enc_ofid) + enc_list([c['verb']], lambda m: enc_str(cps(m)))
         elif op == 'dispatch':
             tab = filter_table(ctx, c['path'])
             out += ([10] + enc_str(cps(c['path'])) + enc_str(cps(c['verb']))
